@@ -225,6 +225,8 @@ class JinjaInterp:
         self.guards: list[tuple] = []
         self.blocks: dict[str, tuple] = {}   # deferred `{% set x %}...{% endset %}` captures: id -> (node, env, template, macro)
         self.changed = False
+        self._dry = 0                        # >0 while a captured block is walked at its definition (labels only)
+        self.dry_ctx: dict[tuple[str, str], set] = {}   # macro contexts seen only in dry passes
         self.globals: dict[str, AV] = {}
         self.render_kwargs: dict[str, dict[str, AV]] = {}
         self.template_globals: dict[str, dict[str, AV]] = {}
@@ -327,7 +329,13 @@ class JinjaInterp:
                 for st, facts in sorted(self.macro_ctx[key], key=lambda x: (x[0], sorted(x[1]))):
                     self.run_macro(key, st, facts)
             if not self.changed:
-                return rounds
+                # a macro whose output only ever lands in a captured block that is used as an opaque string (never emitted in
+                # place) has no lexical context of its own: interpret it where the capture saw it, for its labels
+                orphans = [k for k in sorted(self.dry_ctx) if not self.macro_ctx.get(k)]
+                if not orphans:
+                    return rounds
+                for k in orphans:
+                    self.macro_ctx.setdefault(k, set()).update(self.dry_ctx[k])
         raise AnalysisError("template interpretation did not converge")
 
     def _set(self, table: dict, key: Any, val: AV) -> None:
@@ -421,7 +429,12 @@ class JinjaInterp:
     def block(self, body: list[nodes.Node], env: dict[str, AV], state: str) -> str:
         n0 = len(self.guards)
         try:
-            for n in body:
+            for bi, n in enumerate(body):
+                forked = self._fork_on_lexical_choice(n, body[bi + 1:], env, state) if isinstance(n, nodes.Output) else None
+                if forked is not None:
+                    # `{{ 'r' if c else '' }}""" ... """`: the two constants leave different lexical states, so what follows is read
+                    # once per alternative, under the condition that selects it (the same paths as `{% if c %}r"""...{% else %}"""...`)
+                    return self.stmt(forked, env, state)
                 state = self.stmt(n, env, state)
                 if isinstance(n, nodes.If):
                     # arms that end in continue / break do not reach the rest of this block: their conditions are false from here on
@@ -434,6 +447,50 @@ class JinjaInterp:
         finally:
             del self.guards[n0:]
         return state
+
+    def _fork_on_lexical_choice(self, out: nodes.Output, rest: list[nodes.Node], env: dict[str, AV], state: str) -> nodes.If | None:
+        """An output that contains an inline conditional between two string constants which put the lexer into different states
+        (a string prefix, a quote) is rewritten as the equivalent `if` around the remainder of the enclosing block; None when
+        there is no such conditional.  The rewriting is cached per node so that node identities (hole ordinals) are stable."""
+        import copy
+
+        ti = self.cur_t
+        assert ti is not None
+        cands = [j for j, c in enumerate(out.nodes) if isinstance(c, nodes.CondExpr) and isinstance(c.expr1, nodes.Const)
+                 and isinstance(c.expr1.value, str) and (c.expr2 is None or (isinstance(c.expr2, nodes.Const) and isinstance(c.expr2.value, str)))]
+        if not cands:
+            return None
+        cache = self.__dict__.setdefault("_fork_cache", {})
+        # lexical state in front of each candidate: a dry walk of the children before it
+        st = state
+        self._dry += 1
+        saved_neutrality = dict(self.neutrality)
+        try:
+            for j, child in enumerate(out.nodes):
+                if j in cands:
+                    a = child.expr1.value
+                    b = child.expr2.value if child.expr2 is not None else ""
+                    # the literal text that follows is read together with the constant (a string prefix counts only next to its quote)
+                    nxt = out.nodes[j + 1] if j + 1 < len(out.nodes) and isinstance(out.nodes[j + 1], nodes.TemplateData) else None
+                    lit = nxt.data if nxt is not None else ""
+                    tail = list(out.nodes[j + (2 if nxt is not None else 1):])
+                    if LX.feed(ti.lang, st, a + lit) != LX.feed(ti.lang, st, b + lit):
+                        key = (id(out), j)
+                        if key not in cache:
+                            mk = lambda text, tl: nodes.Output(list(out.nodes[:j]) + [nodes.TemplateData(text + lit, lineno=out.lineno)] + tl,  # noqa: E731
+                                                               lineno=out.lineno)
+                            cache[key] = nodes.If(child.test, [mk(a, tail)] + list(rest), [],
+                                                  [mk(b, copy.deepcopy(tail))] + copy.deepcopy(list(rest)), lineno=out.lineno)
+                        return cache[key]
+                if isinstance(child, nodes.TemplateData):
+                    st = LX.feed(ti.lang, st, child.data)
+                else:
+                    st = self.emit(child, self.ev(child, dict(env)), st, None)
+        finally:
+            self._dry -= 1
+            self.neutrality.clear()
+            self.neutrality.update(saved_neutrality)
+        return None
 
     # ---- guards as boolean formulas --------------------------------------------------------------------------------------------
     @staticmethod
@@ -595,13 +652,20 @@ class JinjaInterp:
                 self.assign_target(n.target, typed("str", labels=[UNKNOWN]), env)
                 self.unsupported["AssignBlock|filter"] = self.unsupported.get("AssignBlock|filter", 0) + 1
                 return state
+            # at the definition the body is only walked for the labels it can emit (a dry pass: nothing is emitted here, so no
+            # emission and no macro context is recorded - the lexical state of the definition site is not where the text lands)
             acc: set[str] = set()
             saved_acc = getattr(self, "_macro_label_acc", None)
             self._macro_label_acc = acc
+            self._dry += 1
+            saved_neutrality = dict(self.neutrality)
             try:
                 self.block(n.body, dict(env), LX.start_state(ti.lang))
             finally:
+                self._dry -= 1
                 self._macro_label_acc = saved_acc
+                self.neutrality.clear()
+                self.neutrality.update(saved_neutrality)  # lexical neutrality is judged where the capture is emitted
             self.assign_target(n.target, AV(types=frozenset({"str"}), labels=frozenset(acc), funcs=frozenset({("block", bid)})), env)
             return state
         if isinstance(n, nodes.Import):
@@ -723,6 +787,10 @@ class JinjaInterp:
                 elif p.kind == "macro":
                     tn, mn = p.text.split("::", 1)
                     facts = frozenset(l for l in p.labels if l.startswith("FACT:")) | self.cur_facts
+                    if self._dry:
+                        self.dry_ctx.setdefault((tn, mn), set()).add((st, facts))
+                        self._note_labels(self.macro_labels.get((tn, mn), frozenset()))
+                        continue
                     ctxs = self.macro_ctx.setdefault((tn, mn), set())
                     if (st, facts) not in ctxs:
                         ctxs.add((st, facts))
@@ -741,6 +809,10 @@ class JinjaInterp:
                     if LX.is_string(st):
                         q = LX.string_info(st)[1]
                         follow_ok = fol is not None and fol != q[0]
+                    if self._dry:
+                        if st.endswith("\\"):
+                            st = st[:-1]
+                        continue
                     ek = (ti.name, self.cur_macro, et, ordinal, st, p.text, self.cur_facts)
                     old = self.emissions.get(ek)
                     if old is None or not (labels <= old.labels) or (old.follow_ok and not follow_ok):
